@@ -1109,6 +1109,17 @@ impl VisitMut for SnippetInserter {
             let at = if self.after { i + 1 } else { i };
             // inserting after a trailing expression would change the block's value: refuse
             if self.after {
+                // an `if` without `else` and the loop forms have type (): a `;` can be added safely
+                if let Stmt::Expr(e, semi @ None) = &mut b.stmts[i] {
+                    let unit = match e {
+                        Expr::If(ei) => ei.else_branch.is_none(),
+                        Expr::While(_) | Expr::ForLoop(_) => true,
+                        _ => false,
+                    };
+                    if unit {
+                        *semi = Some(Default::default());
+                    }
+                }
                 if let Stmt::Expr(_, None) = &b.stmts[i] {
                     die(&format!(
                         "insert anchor `{}` is a tail expression; use `before` (unsupported)",
